@@ -161,6 +161,31 @@ def run_twin(workdir, name, tw, cfg_a="u", cfg_b=None, embed=None):
                 diffs.append((ia, ib, "E(common)", "; ".join(ea)[:300], "; ".join(eb)[:300]))
         if diffs:
             break
+    if not diffs:
+        strip = lambda e: re.sub(r" ud=\d+", "", e)
+        for (st, en, j, k) in tw.get("late_reg", []):
+            registered = False
+            for i in range(st, min(en, len(recs_a), len(recs_b))):
+                if recs_a[i] is None or recs_b[i] is None: break
+                ev_a = [strip(e) for e in recs_a[i].evs]; ev_b = [strip(e) for e in recs_b[i].evs]
+                k_b = [e for e in ev_b if tracemod.ev_kind(e) == k]
+                if registered:
+                    expected = [e for e in ev_a if tracemod.ev_kind(e) == k]
+                elif any(tracemod.ev_kind(e) == j for e in ev_b):
+                    # the callbacks of run A in the order in which they ran (`Q` line): the reports of k that came after the
+                    # first run of j are the ones run B must show too; those before it are legitimately missing
+                    order = recs_a[i].order or []
+                    after = order[order.index(j) + 1:].count(k) if j in order else 0
+                    all_k = [e for e in ev_a if tracemod.ev_kind(e) == k]
+                    expected = all_k[len(all_k) - after:] if after else []
+                    registered = True
+                else:
+                    expected = []
+                n += 1
+                if k_b != expected:
+                    diffs.append((i, i, "E(callback %d registered by callback %d during the call)" % (k, j), "; ".join(expected)[:300], "; ".join(k_b)[:300]))
+                    break
+            if diffs: break
     # a callback that ran although it is not registered, or that got stale user data (detected by the harness itself, which
     # knows what it last told the library — also from inside callbacks), is a difference in its own right
     xd = []
